@@ -332,13 +332,17 @@ structure ScalarOps (L : Type) where
   plain : L → Bool                -- the builtin `repr` gives the same text (false: builtin functions / classes)
   plainText : L → String          -- the builtin `repr`
 
+/-- `xs[len(xs)-j:]`: when `j > len(xs)` the start is negative and counts from the end once more -/
+def tailFrom {α} (xs : List α) (j : Nat) : List α :=
+  if j ≤ xs.length then xs.drop (xs.length - j) else xs.drop (2 * xs.length - j)
+
 /-- the cut `reprlib` makes in a text longer than `max`: `s[:i] + '...' + s[len(s)-j:]` with
     `i = max(0, (max-3)//2)`, `j = max(0, max-3-i)` -/
 def cutStr (max : Nat) (s : String) : String :=
   if s.length > max then
     let i := (max - 3) / 2
     let j := max - 3 - i
-    String.ofList (s.toList.take i) ++ "..." ++ String.ofList (s.toList.drop (s.length - j))
+    String.ofList (s.toList.take i) ++ "..." ++ String.ofList (tailFrom s.toList j)
   else s
 
 mutual
@@ -373,6 +377,18 @@ mutual
   termination_by ts => sizeOf ts
   decreasing_by all_goals c18_dec
 end
+
+/-- the text `repr_str` leaves of an identifier longer than `maxstring - 2`: the repr `'name'` cut in
+    the middle, without its quotes — another name (for `maxstring ≥ 5`; below, the quotes are cut too) -/
+def cutName (max : Nat) (cs : Name) : Name :=
+  let s := '\'' :: (cs ++ ['\''])
+  let i := (max - 3) / 2
+  let j := max - 3 - i
+  ((s.take i ++ ['.', '.', '.'] ++ tailFrom s j).drop 1).dropLast
+
+/-- a dunder attribute name is printed in full: `len(repr(name[2:])) <= maxstring` -/
+def nameFits (F : FmtFacts) (lim : Limits) (n : Name) : Bool :=
+  !(F.dunderGuard && isDunder n) || decide ((n.drop 2).length + 2 ≤ lim.maxstring)
 
 /-- `repr_instance` on an object whose builtin repr is the token list of `a`:
     `if len(s) > self.maxother` it is cut in the middle -/
@@ -430,7 +446,8 @@ mutual
   /-- every argument of a step is printed by `bbrepr(arg)` = `repr1(arg, maxlevel)`; the `'P'`
       segments of a Path by the builtin `repr(part)` -/
   def truncStep {L} (S : ScalarOps L) (F : FmtFacts) (lim : Limits) : Step L → Step L
-    | .attr n => .attr n
+    -- `'.__(%s)' % bbrepr(arg[2:])`: the name of a dunder attribute goes through `repr_str`
+    | .attr n => if nameFits F lim n then .attr n else .attr (dunder ++ cutName lim.maxstring (n.drop 2))
     | .item i => .item (truncItem S F lim i)
     | .items is => .items (is.map (fun i => truncItem S F lim i))
     | .call args kwargs =>
